@@ -128,3 +128,96 @@ pub proof fn lemma_l2_step(rem: Seq<u8>, m: LzS, w: Win)
 {
     reveal_with_fuel(sp_lzma2, 2);
 }
+
+// ---- encoder side: what lzma-rs's LZMA2 "encoder" emits (stored chunks with dictionary reset) -----
+pub proof fn lemma_be16_roundtrip(v: u16, rest: Seq<u8>)
+    ensures be16(enc_be16(v) + rest) == v,
+{
+    let s = enc_be16(v) + rest;
+    assert(s[0] == (v / 256) as u8 && s[1] == (v % 256) as u8);
+}
+
+/// shape of the result of decoding `k0` more bytes before the rest
+pub open spec fn l2_shift(k0: nat, r: Option<(nat, LzS, Win)>) -> Option<(nat, LzS, Win)> {
+    match r { None => None, Some((k, m3, w3)) => Some((k0 + k, m3, w3)) }
+}
+
+/// a stored chunk with dictionary reset, followed by `s`, decodes to the chunk data followed by what `s` decodes to
+pub proof fn lemma_l2_stored_chunk(d: Seq<u8>, s: Seq<u8>, m: LzS, w: Win)
+    requires 1 <= d.len() <= 65536,
+    ensures ({
+        let e = seq![1u8] + enc_be16((d.len() - 1) as u16) + d;
+        sp_lzma2(e + s, m, w) == l2_shift(e.len(), sp_lzma2(s, m, win_append(win_reset(w), d)))
+    }),
+{
+    let v = (d.len() - 1) as u16;
+    let e = seq![1u8] + enc_be16(v) + d;
+    let rem = e + s;
+    lemma_l2_step(rem, m, w);
+    assert(rem[0] == 1u8);
+    assert(rem.skip(1) =~= enc_be16(v) + (d + s));
+    lemma_be16_roundtrip(v, d + s);
+    let n: nat = be16(rem.skip(1)) as nat + 1;
+    assert(n == d.len());
+    assert(rem.len() == 3 + n + s.len());
+    assert(rem.subrange(3, 3 + n as int) =~= d);
+    assert(rem.skip(3 + n as int) =~= s);
+}
+
+pub proof fn lemma_l2_end(s: Seq<u8>, m: LzS, w: Win)
+    ensures sp_lzma2(seq![0u8] + s, m, w) == Some((1nat, m, w)),
+{
+    lemma_l2_step(seq![0u8] + s, m, w);
+}
+
+/// window after decoding stored chunks whose total data is `data`, the last chunk having `last` bytes
+pub open spec fn l2_win_after(w: Win, data: Seq<u8>, last: Option<nat>) -> Win {
+    Win { out: w.out + data, hist: match last { Some(l) => l, None => w.hist }, maxd: w.maxd }
+}
+/// `e` is a prefix that decodes to `data`: for every continuation s, decoding e + s == decoding s afterwards
+pub open spec fn l2_prefix_decodes(e: Seq<u8>, data: Seq<u8>, last: Option<nat>) -> bool {
+    forall|s: Seq<u8>, m: LzS, w: Win| #[trigger] sp_lzma2(e + s, m, w) == l2_shift(e.len(), sp_lzma2(s, m, l2_win_after(w, data, last)))
+}
+/// `e` is a complete LZMA2 stream that decodes to exactly `data`
+pub open spec fn l2_decodes_to(e: Seq<u8>, data: Seq<u8>) -> bool {
+    forall|m: LzS, w: Win| (#[trigger] sp_lzma2(e, m, w)) matches Some((k, m3, w3)) && k == e.len() && m3 == m && w3.out == w.out + data
+}
+
+pub proof fn lemma_l2_prefix_empty()
+    ensures l2_prefix_decodes(Seq::<u8>::empty(), Seq::<u8>::empty(), None),
+{
+    assert forall|s: Seq<u8>, m: LzS, w: Win| #[trigger] sp_lzma2(Seq::<u8>::empty() + s, m, w)
+        == l2_shift(0, sp_lzma2(s, m, l2_win_after(w, Seq::<u8>::empty(), None))) by {
+        assert(Seq::<u8>::empty() + s =~= s);
+        assert(w.out + Seq::<u8>::empty() =~= w.out);
+        assert(l2_win_after(w, Seq::<u8>::empty(), None) == w);
+    }
+}
+
+pub proof fn lemma_l2_prefix_chunk(e: Seq<u8>, data: Seq<u8>, last: Option<nat>, d: Seq<u8>)
+    requires l2_prefix_decodes(e, data, last), 1 <= d.len() <= 65536,
+    ensures l2_prefix_decodes(e + (seq![1u8] + enc_be16((d.len() - 1) as u16) + d), data + d, Some(d.len())),
+{
+    let c = seq![1u8] + enc_be16((d.len() - 1) as u16) + d;
+    assert forall|s: Seq<u8>, m: LzS, w: Win| #[trigger] sp_lzma2((e + c) + s, m, w)
+        == l2_shift((e + c).len(), sp_lzma2(s, m, l2_win_after(w, data + d, Some(d.len())))) by {
+        assert((e + c) + s =~= e + (c + s));
+        let w1 = l2_win_after(w, data, last);
+        assert(sp_lzma2(e + (c + s), m, w) == l2_shift(e.len(), sp_lzma2(c + s, m, w1)));
+        lemma_l2_stored_chunk(d, s, m, w1);
+        assert((w.out + data) + d =~= w.out + (data + d));
+        assert(win_append(win_reset(w1), d) == l2_win_after(w, data + d, Some(d.len())));
+    }
+}
+
+pub proof fn lemma_l2_prefix_end(e: Seq<u8>, data: Seq<u8>, last: Option<nat>)
+    requires l2_prefix_decodes(e, data, last),
+    ensures l2_decodes_to(e + seq![0u8], data),
+{
+    assert forall|m: LzS, w: Win| (#[trigger] sp_lzma2(e + seq![0u8], m, w)) matches Some((k, m3, w3)) && k == (e + seq![0u8]).len() && m3 == m && w3.out == w.out + data by {
+        let w1 = l2_win_after(w, data, last);
+        assert(sp_lzma2(e + seq![0u8], m, w) == l2_shift(e.len(), sp_lzma2(seq![0u8], m, w1)));
+        assert(seq![0u8] + Seq::<u8>::empty() =~= seq![0u8]);
+        lemma_l2_end(Seq::<u8>::empty(), m, w1);
+    }
+}
